@@ -191,4 +191,45 @@ Shared ==
 \* CommonHeader calls bit 8 `h` where stream formats call it `sv`: same bit.
 CommonAlias == [ subtype |-> "subtype", h |-> "sv", version |-> "version" ]
 
+
+(***************************************************************************)
+(* Deprecated API (C12): field-name aliases and packed overlay structures. *)
+(***************************************************************************)
+LAlias(m, v, f) == [macro |-> m, view |-> v, field |-> f]
+LegacyAlias ==
+  { LAlias("AVTP_FIELD_SUBTYPE", "CommonHeader", "subtype"), LAlias("AVTP_FIELD_VERSION", "CommonHeader", "version"),
+    LAlias("AVTP_AAF_FIELD_SV", "Pcm", "sv"), LAlias("AVTP_AAF_FIELD_MR", "Pcm", "mr"), LAlias("AVTP_AAF_FIELD_TV", "Pcm", "tv"),
+    LAlias("AVTP_AAF_FIELD_SEQ_NUM", "Pcm", "sequence_num"), LAlias("AVTP_AAF_FIELD_TU", "Pcm", "tu"),
+    LAlias("AVTP_AAF_FIELD_STREAM_ID", "Pcm", "stream_id"), LAlias("AVTP_AAF_FIELD_TIMESTAMP", "Pcm", "avtp_timestamp"),
+    LAlias("AVTP_AAF_FIELD_STREAM_DATA_LEN", "Pcm", "stream_data_length"), LAlias("AVTP_AAF_FIELD_FORMAT", "Pcm", "format"),
+    LAlias("AVTP_AAF_FIELD_NSR", "Pcm", "nsr"), LAlias("AVTP_AAF_FIELD_CHAN_PER_FRAME", "Pcm", "channels_per_frame"),
+    LAlias("AVTP_AAF_FIELD_BIT_DEPTH", "Pcm", "bit_depth"), LAlias("AVTP_AAF_FIELD_SP", "Pcm", "sp"),
+    LAlias("AVTP_AAF_FIELD_EVT", "Pcm", "evt"),
+    LAlias("AVTP_CRF_FIELD_SEQ_NUM", "Crf", "sequence_num"), LAlias("AVTP_CRF_FIELD_BASE_FREQ", "Crf", "base_frequency"),
+    LAlias("AVTP_CRF_FIELD_CRF_DATA_LEN", "Crf", "crf_data_length"),
+    LAlias("AVTP_RVF_FIELD_SEQ_NUM", "Rvf", "sequence_num"), LAlias("AVTP_RVF_FIELD_TIMESTAMP", "Rvf", "avtp_timestamp"),
+    LAlias("AVTP_RVF_FIELD_STREAM_DATA_LEN", "Rvf", "stream_data_length"),
+    LAlias("AVTP_RVF_FIELD_RAW_PIXEL_DEPTH", "Rvf", "pixel_depth"), LAlias("AVTP_RVF_FIELD_RAW_PIXEL_FORMAT", "Rvf", "pixel_format"),
+    LAlias("AVTP_RVF_FIELD_RAW_FRAME_RATE", "Rvf", "frame_rate"), LAlias("AVTP_RVF_FIELD_RAW_COLORSPACE", "Rvf", "colorspace"),
+    LAlias("AVTP_RVF_FIELD_RAW_NUM_LINES", "Rvf", "num_lines"), LAlias("AVTP_RVF_FIELD_RAW_I_SEQ_NUM", "Rvf", "i_seq_num"),
+    LAlias("AVTP_RVF_FIELD_RAW_LINE_NUMBER", "Rvf", "line_number") }
+\* alias macros for the one-past-the-end enumerator
+LegacyMaxAlias == { [macro |-> "AVTP_FIELD_MAX", view |-> "CommonHeader"], [macro |-> "AVTP_AAF_FIELD_MAX", view |-> "Pcm"] }
+
+\* packed structures of the deprecated API: size and member offsets follow from the layout
+ByteOff(v, n) == FieldOf(v, n).start \div 8
+LStruct(nm, v, sz, mem) == [name |-> nm, view |-> v, size |-> sz, members |-> mem]
+LegacyStructs ==
+  { LStruct("struct avtp_common_pdu", "CommonHeader", HdrLen["CommonHeader"],
+      [subtype_data |-> 0, pdu_specific |-> HdrLen["CommonHeader"]]),
+    LStruct("struct avtp_stream_pdu", "Pcm", HdrLen["Pcm"],
+      [subtype_data |-> 0, stream_id |-> ByteOff("Pcm", "stream_id"), avtp_time |-> ByteOff("Pcm", "avtp_timestamp"),
+       format_specific |-> ByteOff("Pcm", "format"), packet_info |-> ByteOff("Pcm", "stream_data_length"),
+       avtp_payload |-> HdrLen["Pcm"]]),
+    LStruct("struct avtp_crf_pdu", "Crf", HdrLen["Crf"],
+      [subtype_data |-> 0, stream_id |-> ByteOff("Crf", "stream_id"), packet_info |-> ByteOff("Crf", "pull"),
+       crf_data |-> HdrLen["Crf"]]),
+    \* the RVF raw header follows the 24-byte stream header: together they are the RVF header
+    LStruct("struct avtp_rvf_payload", "Rvf", HdrLen["Rvf"] - HdrLen["Pcm"],
+      [raw_header |-> 0, raw_data |-> HdrLen["Rvf"] - HdrLen["Pcm"]]) }
 =============================================================================
